@@ -158,25 +158,54 @@ func guarded(f func() decOut) decOut {
 	}
 }
 
-func decodeService(data []byte) decOut {
+// scribble overwrites the whole backing array of the input (the receiver reuses it for the next
+// datagram): a decoded value must not change with it
+func scribble(data []byte) {
+	full := data[:cap(data)]
+	for i := range full {
+		full[i] ^= 0xFF
+	}
+}
+
+func decodeService(data []byte) decOut { return decodeServiceX(data, false) }
+
+func decodeServiceX(data []byte, scrib bool) decOut {
 	return guarded(func() decOut {
 		var s knxnet.Service
 		n, err := knxnet.Unpack(data, &s)
 		if err != nil {
 			return decOut{class: "err", msg: err.Error()}
 		}
-		return decOut{class: "ok", n: n, toks: ktext.Service(s)}
+		toks := ktext.Service(s)
+		if !scrib {
+			return decOut{class: "ok", n: n, toks: toks}
+		}
+		scribble(data)
+		if after := ktext.Service(s); ktext.Join(after) != ktext.Join(toks) {
+			return decOut{class: "aliased", n: n, msg: "decoded value " + ktext.Join(toks) + " became " + ktext.Join(after) + " when the input buffer was overwritten"}
+		}
+		return decOut{class: "ok", n: n, toks: toks}
 	})
 }
 
-func decodeCemi(data []byte) decOut {
+func decodeCemi(data []byte) decOut { return decodeCemiX(data, false) }
+
+func decodeCemiX(data []byte, scrib bool) decOut {
 	return guarded(func() decOut {
 		var m cemi.Message
 		n, err := cemi.Unpack(data, &m)
 		if err != nil {
 			return decOut{class: "err", msg: err.Error()}
 		}
-		return decOut{class: "ok", n: n, toks: ktext.Cemi(m)}
+		toks := ktext.Cemi(m)
+		if !scrib {
+			return decOut{class: "ok", n: n, toks: toks}
+		}
+		scribble(data)
+		if after := ktext.Cemi(m); ktext.Join(after) != ktext.Join(toks) {
+			return decOut{class: "aliased", n: n, msg: "decoded value " + ktext.Join(toks) + " became " + ktext.Join(after) + " when the input buffer was overwritten"}
+		}
+		return decOut{class: "ok", n: n, toks: toks}
 	})
 }
 
@@ -194,9 +223,9 @@ func (r *run) c01Input(kind string, vis []byte, seed uint32) {
 		data := withTail(vis, t)
 		var d decOut
 		if kind == "dec" {
-			d = decodeService(data)
+			d = decodeServiceX(data, true)
 		} else {
-			d = decodeCemi(data)
+			d = decodeCemiX(data, true)
 		}
 		op := kind + " " + ktext.Hex(vis) + " " + t.String()
 		r.emit(op, d.String())
@@ -207,6 +236,8 @@ func (r *run) c01Input(kind string, vis []byte, seed uint32) {
 		case d.class == "hang":
 			r.hung++
 			r.violation("hang", op, "no result within 3s")
+		case d.class == "aliased":
+			r.violation("decoded-value-aliases-the-input-buffer", op, d.msg)
 		case d.class == "ok" && d.n > uint(len(vis)):
 			r.violation("consumed-exceeds-input", op, fmt.Sprintf("consumed %d of %d", d.n, len(vis)))
 		}
